@@ -140,8 +140,8 @@ CONDITIONS = [
      'tiers': {
          'quick': {'bounds': {'L': 2, 'TAIL': _QTAIL, 'REP': 1, 'NEXC': 2}, 'timeout': 400, 'witness_timeout': 120,
                    'shards': _shards([('mem', [None] + _ALL), ('file', _QSUB), ('s3', _QSUB)]), 'witness_shard': _W},
-         'thorough': {'bounds': {'L': 3, 'TAIL': _QTAIL, 'REP': 12, 'NEXC': 2}, 'timeout': 6000, 'witness_timeout': 120,
+         'thorough': {'bounds': {'L': 3, 'TAIL': [_o('A', 1), _o('D', 1), _o('O', 1), _o('U')], 'REP': 12, 'NEXC': 2}, 'timeout': 6000, 'witness_timeout': 120,
                       'shards': _shards([('mem', [None] + _ALL)]) +
-                      [dict(x, **{'b.L': 2, 'b.TAIL': _TTAIL}) for x in _shards([('file', [None] + _ALL), ('s3', [None] + _ALL)])],
+                      [dict(x, **{'b.L': 2, 'b.TAIL': _QTAIL}) for x in _shards([('file', [None] + _ALL), ('s3', [None] + _ALL)])],
                       'witness_shard': _W}}},
 ]
